@@ -349,6 +349,46 @@ Proof.
     apply (assoc_in _ _ _ Hm) in Hin. apply Hiff in Hin. apply (in_map fst) in Hin. exact Hin.
 Qed.
 
+(* ---- Intersect / Sub ---- *)
+Lemma restrict_fold main a (keep : N -> bool) : forall (L : list (N * N)) r, Inv main r ->
+  (forall h v, In (h, v) L -> get main a h = Some v) ->
+  let r' := fold_left (fun r (hv : N * N) => if keep (fst hv)
+                         then set main r (fst hv) (match get main a (fst hv) with Some v => v | None => 0%N end)
+                         else r) L r in
+  Inv main r' /\
+  forall h, get main r' h = if andb (keep h) (existsb (fun hv => N.eqb (fst hv) h) L) then get main a h else get main r h.
+Proof.
+  induction L as [|[h0 v0] L IH]; intros r HI HL; cbn [fold_left existsb fst].
+  - split; [exact HI|]. intro h. rewrite andb_false_r. reflexivity.
+  - assert (H0 : get main a h0 = Some v0) by (apply HL; left; reflexivity). rewrite H0.
+    destruct (keep h0) eqn:Ek.
+    + destruct (IH (set main r h0 v0) (set_inv main r h0 v0 HI) (fun h v H => HL h v (or_intror H))) as [I1 I2].
+      split; [exact I1|]. intro h. rewrite I2, get_set.
+      destruct (N.eqb_spec h0 h) as [E|Hne].
+      * subst h. rewrite Ek. cbn [orb andb]. destruct (existsb (fun hv => N.eqb (fst hv) h0) L); [reflexivity | symmetry; exact H0].
+      * cbn [orb]. reflexivity.
+    + destruct (IH r HI (fun h v H => HL h v (or_intror H))) as [I1 I2].
+      split; [exact I1|]. intro h. rewrite I2.
+      destruct (N.eqb_spec h0 h) as [E|Hne]; [subst h; rewrite Ek; reflexivity | reflexivity].
+Qed.
+
+(* Intersect (keep = other.Has) and Sub (keep = not other.Has): the result holds exactly the
+   bindings of [a] whose handle is kept, and is again a well-formed set *)
+Lemma restrict_spec main rest a keep : Inv main a ->
+  Inv main (restrict main rest a keep) /\
+  forall h, get main (restrict main rest a keep) h = if keep h then get main a h else None.
+Proof.
+  intro HI. unfold restrict. destruct (all_spec main rest a HI) as [Hn Hiff].
+  destruct (restrict_fold main a keep (all main rest a) (new_set (S (length main))) (new_set_inv main _)
+              (fun h v H => proj1 (Hiff h v) H)) as [I1 I2].
+  split; [exact I1|]. intro h. rewrite I2, get_new. destruct (keep h); [|reflexivity]. cbn [andb].
+  destruct (existsb (fun hv => N.eqb (fst hv) h) (all main rest a)) eqn:E; [reflexivity|].
+  destruct (get main a h) as [v|] eqn:Eg; [|reflexivity]. exfalso.
+  assert (Ht : existsb (fun hv => N.eqb (fst hv) h) (all main rest a) = true).
+  { apply existsb_exists. exists (h, v). split; [apply Hiff; exact Eg | apply N.eqb_refl]. }
+  congruence.
+Qed.
+
 (* ---- the oracle ---- *)
 Lemma memN_spec x l : memN x l = true <-> In x l.
 Proof.
